@@ -189,8 +189,8 @@ def respell(rng, text):
     around operators and after commas, function names in lower / mixed
     case.  (Quoted text is left alone.)"""
     import re
-    if '"' in text:
-        return text
+    if '"' in text or '#' in text:
+        return text         # text literals and error literals stay as is
     k = rng.random()
     if k < 0.4:
         text = re.sub(r'([A-Za-z_]+)\(', lambda m: rng.choice(
